@@ -270,6 +270,7 @@ def C15(prog: Program, run: Run, tier: str) -> None:
     run.add(_only(extra.explicit_beats_attribute(prog), "cog._rio"), "R-GUARDSEQ an explicitly passed nodata beats the array attribute")
     run.add(axis.rule_axis(prog, {"cog._rio"}), AXIS_DESC)
     run.add(api.rule_api(prog, {"cog._rio"}), "R-API")
+    run.add(cog.rule_rio_layout(prog), "R-AXIS band-last input permuted exactly (Y,X,B)->(B,Y,X); R-GUARDSEQ one side-car memory file per layer (zip cannot truncate)")
     run.floor("R-GUARDSEQ|", 5)
 
 
@@ -320,7 +321,8 @@ GENERIC_DESC = (
     "R-DUP no boolean operator / comparison / if-elif chain / conditional expression repeats an operand (the second copy "
     "was meant to test something else); R-TRUTHY no optional-number parameter is tested by truth value (0 is a value, not None); "
     "R-ABSEPS the affine library's absolute-epsilon predicates (is_rectilinear, is_identity, ...) are never applied to a pixel->world affine; "
-    "R-MEMO a loop-local memo dict stores values that depend on the loop only through the key"
+    "R-MEMO a loop-local memo dict stores values that depend on the loop only through the key; "
+    "R-REMAINDER sign-preserving remainder/truncation primitives (fmod, modf, trunc) are used only inside odc.geo.math"
 )
 
 
@@ -348,7 +350,7 @@ def _with_generic(pid, fn):
     def wrapped(prog: Program, run: Run, tier: str) -> None:
         fn(prog, run, tier)
         mods = {m for m in ANCHORED.get(pid, set()) if m in prog.modules}
-        run.add(generic.rule_dup(prog, mods) + generic.rule_truthy(prog, mods) + generic.rule_abseps(prog, mods) + generic.rule_localmemo(prog, mods), GENERIC_DESC)
+        run.add(generic.rule_dup(prog, mods) + generic.rule_truthy(prog, mods) + generic.rule_abseps(prog, mods) + generic.rule_localmemo(prog, mods) + generic.rule_remainder_owner(prog, mods), GENERIC_DESC)
 
     wrapped.__name__ = pid
     wrapped.__doc__ = fn.__doc__
